@@ -1,11 +1,11 @@
 package main
 
 import (
-	"sort"
-	"strings"
 	"fmt"
 	"go/token"
 	"go/types"
+	"sort"
+	"strings"
 
 	"golang.org/x/tools/go/ssa"
 )
